@@ -55,10 +55,16 @@ Definition cremove (k : N) (c : list (N * entry)) : list (N * entry) :=
 Definition cset (k : N) (e : entry) (c : list (N * entry)) : list (N * entry) :=
   (k, e) :: cremove k c.
 
+(* `FragmentLength == 0 && (Length != 0 || FragmentOffset != 0)`: an empty fragment that is not the
+   single fragment of an empty message is skipped (nothing stored, record still a handshake record) *)
+Definition skip_empty (f : frag) : bool :=
+  (f_flen f =? 0) && (negb (f_len f =? 0) || negb (f_off f =? 0)).
+
 (* one iteration of the loop of pushHandshakeFragments for a fragment that parsed and fits *)
 Definition push_frag (ep : N) (acc : state * bool) (f : frag) : state * bool :=
   let (st, retr) := acc in
   if f_seq f <? cur st then (st, true)                      (* isRetransmit = true; continue *)
+  else if skip_empty f then (st, retr)                      (* continue *)
   else
     let e := match clookup (f_seq f) (cache st) with
              | Some e => e
@@ -126,7 +132,9 @@ Record popped := mkPop { p_ty : N; p_len : N; p_seq : N; p_body : bytes; p_epoch
 
 Inductive pop_result :=
 | PNone                                  (* return nil, 0 *)
-| PPanic                                 (* nil-pointer dereference of fragmentByOffset[0] *)
+| PPanic                                 (* nil-pointer dereference of fragmentByOffset[0]; kept so that
+                                            [pop] mirrors the code line by line - unreachable since
+                                            empty fragments are skipped (BufferSound.pop_never_panics) *)
 | POk (m : popped) (st' : state).
 
 Definition pop (st : state) : pop_result :=
